@@ -59,8 +59,11 @@ EdgeSatisfied(U, g, e) ==
   LET to == g.nodes[e.t] from == g.nodes[e.f] IN
   /\ \E d \in DepsOfNode(U, from) : d.name = to.name /\ d.r = e.r /\ d.alias = e.alias
   /\ \E rec \in VersOfPkg(U, to.name) : rec.v = to.v /\ (SatRec(e.r, rec) \/ (e.r = StarReq /\ ~e.sel))
+\* npm: a package listed in optionalDependencies as well overrides its entry in dependencies; a bundleDependencies entry
+\* adds nothing when the package is a regular dependency too
+Overridden(ds, d) == (d.kind # "opt" /\ \E x \in ds : x.name = d.name /\ x.kind = "opt") \/ (d.kind = "bundle" /\ \E x \in ds : x.name = d.name /\ x.kind = "reg")
 CompleteNode(U, g, i) ==
-  \A d \in {x \in DepsOfNode(U, g.nodes[i]) : Eligible(x)} :
+  \A d \in {x \in DepsOfNode(U, g.nodes[i]) : Eligible(x) /\ ~Overridden(DepsOfNode(U, g.nodes[i]), x)} :
      \/ \E e \in Elems(g.edges) : e.f = i /\ e.r = d.r /\ g.nodes[e.t].name = d.name
      \/ \E er \in Elems(g.nodes[i].errs) : er.name = d.name /\ er.r = d.r
 RECURSIVE ReachFrom(_, _)
